@@ -5,8 +5,8 @@ From LaPyV Require Import Base.Scalar Base.ListAux Base.Sparse Model.TriaAdj Mod
 Import ListNotations.
 Open Scope R_scope.
 
-Theorem C05_dirichlet_values_exact : forall solve, solve_contract solve ->
-  forall dim A B h didx ddat ntup X p,
+(* (holds for any solver at all: the prescribed values are written after the solve) *)
+Theorem C05_dirichlet_values_exact : forall solve dim A B h didx ddat ntup X p,
   poisson Rops solve dim A B h (Some (didx, ddat)) ntup = Ok X ->
   Forall (fun i => (i < dim)%nat) didx -> (p < length didx)%nat ->
   nth (nth p didx 0%nat) X 0 = nth p ddat 0.
